@@ -120,10 +120,11 @@ func poolModel(size int) porcupine.NondeterministicModel {
 }
 
 type c17Shared struct {
-	kind     int // 0 serializer, 1 encoder, 2 decoder
-	input    interface{}
-	expBytes []byte
-	expCanon string
+	kind      int // 0 serializer, 1 encoder, 2 decoder
+	input     interface{}
+	expBytes  []byte
+	expCanon  string
+	expDecErr string // the (masked) error a decode of expBytes returns when run alone ("" = it succeeds)
 }
 
 func objID(o interface{}) uintptr {
@@ -154,6 +155,12 @@ func c17Use(sh *c17Shared, o interface{}) string {
 			return "ToBytes returned different bytes than when run alone"
 		}
 		v, err := s.ToObject(b)
+		if sh.expDecErr != "" {
+			if maskErr(err) != sh.expDecErr {
+				return fmt.Sprintf("ToObject returned %v, alone it returns the error %s", err, sh.expDecErr)
+			}
+			return ""
+		}
 		if err != nil {
 			return "ToObject: " + err.Error()
 		}
@@ -178,6 +185,12 @@ func c17Use(sh *c17Shared, o interface{}) string {
 			return fmt.Sprintf("object of type %T is not a *Decoder", o)
 		}
 		v, err := d.Decode(sh.expBytes)
+		if sh.expDecErr != "" {
+			if maskErr(err) != sh.expDecErr {
+				return fmt.Sprintf("Decode returned %v, alone it returns the error %s", err, sh.expDecErr)
+			}
+			return ""
+		}
 		if err != nil {
 			return "Decode: " + err.Error()
 		}
@@ -188,14 +201,22 @@ func c17Use(sh *c17Shared, o interface{}) string {
 	return ""
 }
 
+// c17NilMaps: the run's pools are constructed without maps (legal: every pooled object then works on maps
+// of its own, created by the library).
+var c17NilMaps bool
+
 func c17NewPool(kind, size int) hessian.Pool {
+	tm, nm := ZooTypeMap, ZooNameMap
+	if c17NilMaps {
+		tm, nm = nil, nil
+	}
 	switch kind {
 	case 0:
-		return hessian.NewSerializerPool(size, ZooTypeMap, ZooNameMap)
+		return hessian.NewSerializerPool(size, tm, nm)
 	case 1:
-		return hessian.NewEncoderPool(size, ZooNameMap)
+		return hessian.NewEncoderPool(size, nm)
 	default:
-		return hessian.NewDecoderPool(size, ZooTypeMap)
+		return hessian.NewDecoderPool(size, tm)
 	}
 }
 
@@ -227,19 +248,26 @@ func runC17(ch *Choices, cfg *RunCfg) (o *Outcome) {
 	n := &Node{Id: 7, Name: "pooled", Tags: []string{"a", "b"}, Attr: map[string]string{"k": "v"}, Nums: []int32{1, 2, 3}}
 	n.Next = n
 	sh.input = n
+	c17NilMaps = ch.Intn(5, "pool.nilmaps") == 1
 	{
-		b, err := hessian.ToBytes(sh.input, ZooNameMap)
+		tm, nm := ZooTypeMap, ZooNameMap
+		if c17NilMaps {
+			tm, nm = nil, nil
+			o.Probes["pools constructed without maps (nil)"]++
+		}
+		b, err := hessian.ToBytes(sh.input, nm)
 		if err != nil {
 			o.Skipped = true
 			return o
 		}
 		sh.expBytes = b
-		v, err := hessian.ToObject(b, ZooTypeMap)
+		v, err := hessian.ToObject(b, tm)
 		if err != nil {
-			o.Skipped = true
-			return o
+			// without a type map the classes are unknown: decoding alone fails, and so must a pooled decoder
+			sh.expDecErr = maskErr(err)
+		} else {
+			sh.expCanon, _ = Canon(v, CanonOpts{})
 		}
-		sh.expCanon, _ = Canon(v, CanonOpts{})
 	}
 	// solo baseline of the caller's own work per call (statements), on a scratch pool
 	var baseGet, baseRet uint64
